@@ -792,7 +792,7 @@ def run(chk):
               if j[0] == "job_getitem_slice" else 0)
     chk.parallel("contracts.C01", "dispatch", jobs)
     if not only or "frame" in only:
-        frame_scan(chk)
+        chk.guard(frame_scan)
         chk.discharge(workers=1)
     if not only or "bounded" in only:
         chk.bounded("bounded.C01")
